@@ -671,3 +671,25 @@ def fam_race(rng, n):
                         {"op": "quiesce", "ms": 800}]
     out.append({"name": "race/sr_renewal", "conf": conf(sr_enable=True), "endpoints": customs(k), "steps": steps})
     return out
+
+
+# --------------------------------------------------------------------------- deprecated constructor
+def _legacy_some(fam, every=3):
+    """Every `every`-th scenario of a family builds its node with the deprecated NewNode(NodeConf) instead of
+    Node.Initialize (not where a goroutine is held from the start: the hooks cannot name the node yet)."""
+    def wrapped(*a, **kw):
+        out = fam(*a, **kw)
+        for i, sc in enumerate(out):
+            if i % every == every - 1 and not any(s["op"] == "hold_at_start" for s in sc["steps"]):
+                sc["conf"] = dict(sc["conf"], legacy_ctor=True)
+        return out
+    wrapped.__doc__ = fam.__doc__
+    return wrapped
+
+
+fam_events = _legacy_some(fam_events)
+fam_fanout = _legacy_some(fam_fanout)
+fam_auto = _legacy_some(fam_auto)
+fam_close = _legacy_some(fam_close, 4)
+fam_udp = _legacy_some(fam_udp)
+fam_faults = _legacy_some(fam_faults, 4)
